@@ -345,12 +345,35 @@ fn alloc_json<'tcx>(
       }
       None
     }
-    ty::Adt(adt, _) if adt.is_struct() => {
+    ty::Adt(adt, args) if adt.is_struct() => {
       // single-field newtype over an integer (Sat, Rune, Height, ...)
       let v = adt.non_enum_variant();
       if v.fields.len() == 1 {
         let fty = tcx.type_of(v.fields[rustc_abi::FieldIdx::from_u32(0)].did).instantiate_identity().skip_norm_wip();
         return alloc_json(tcx, fty, alloc, off);
+      }
+      // a small struct of integers (e.g. a promoted `&(A..B)`: Range<u64>): field name -> value, read at the layout's offsets
+      if v.fields.len() <= 4 {
+        let lay = tcx.layout_of(ty::TypingEnv::fully_monomorphized().as_query_input(ty)).ok()?;
+        let mut out = Vec::new();
+        for (i, f) in v.fields.iter().enumerate() {
+          let fty = f.ty(tcx, args);
+          if matches!(fty.kind(), ty::Bool) {
+            let fo = lay.fields.offset(i).bytes() as usize;
+            if off + fo >= bytes.len() {
+              return None;
+            }
+            out.push(format!("{}:{}", esc(f.name.as_str()), if bytes[off + fo] != 0 { "true" } else { "false" }));
+            continue;
+          }
+          if !matches!(fty.kind(), ty::Uint(_) | ty::Int(_)) {
+            return None;
+          }
+          let fo = lay.fields.offset(i).bytes() as usize;
+          let j = alloc_json(tcx, fty, alloc, off + fo)?;
+          out.push(format!("{}:{}", esc(f.name.as_str()), j));
+        }
+        return Some(format!("{{\"st\":{{{}}}}}", out.join(",")));
       }
       None
     }
